@@ -405,7 +405,8 @@ def bigfile_case(args):
     nosparse = len(args) > 4 and args[4]      # sort file marks the file [nosparse]: 4 GiB of zero blocks are really stored, the inode has no holes
     import random, subprocess
     rng = random.Random(seed * 31 + delta)
-    size = (1 << 32) + delta
+    base = args[5] if len(args) > 5 else (1 << 32)      # 9 GiB with 4 KiB blocks: 2.36 million block size words in one inode
+    size = base + delta
     islands = [(0, rng.randbytes(5000)), ((1 << 32) - 7, rng.randbytes(4096 + 14)), (3 * (1 << 30) + 12345, rng.randbytes(100))]
     if delta > 10:
         islands.append((size - 9, rng.randbytes(9)))
@@ -417,7 +418,7 @@ def bigfile_case(args):
             if lo < hi:
                 buf[lo - off:hi - off] = d[lo - o:hi - o]
         return bytes(buf)
-    what = "file of 2^32%+d bytes (-b %d -c %s%s)" % (delta, B, comp, ", [nosparse]" if nosparse else "")
+    what = "file of %s%+d bytes (-b %d -c %s%s)" % ("2^32" if base == 1 << 32 else "%d GiB" % (base >> 30), delta, B, comp, ", [nosparse]" if nosparse else "")
     try:
         with Scratch("c01big") as sc:
             src = os.path.join(sc, "src")
@@ -502,8 +503,8 @@ def bigfile_case(args):
             r = vcommon.run([vcommon.tool("asan", "rdsquashfs"), "-s", "/big", out], timeout=60)
             if r.rc != 0 or (b"%d" % size) not in r.out:
                 return ("violation", delta, "rdsquashfs -s does not report %d bytes for the %s" % (size, what), None)
-            return ("ok", delta, ["bigfile_4g%+d%s" % (delta, "_nosparse" if nosparse else ""), "bigfile_data_blocks_%d" % min(nb_data, 9999)],
-                    "bigfile-%d-%d-%s-%s" % (delta, B, comp, nosparse))
+            return ("ok", delta, ["bigfile_%dg%+d%s" % (base >> 30, delta, "_nosparse" if nosparse else ""), "bigfile_data_blocks_%d" % min(nb_data, 9999)],
+                    "bigfile-%d-%d-%d-%s-%s" % (base, delta, B, comp, nosparse))
     except sqfsimg.FormatError as ex:
         return ("violation", delta, "%s: image does not parse: %s" % (what, ex), None)
 
@@ -517,7 +518,7 @@ def main(tier, seed, scale=1.0):
     heavy = [65535, 65536] if tier == "quick" else [65534, 65535, 65536, 65537]
     hp = mp.get_context("fork").Pool(2)
     hres = hp.map_async(heavy_case, [(h, seed) for h in heavy], chunksize=1)
-    bigs = [(1, 1 << 20, "gzip", seed), (5, 1 << 20, "lz4", seed, True)] if tier == "quick" else [(7, 1 << 20, "zstd", seed, True), (0, 1 << 20, "zstd", seed), (1, 1 << 20, "gzip", seed), (-1, 1 << 20, "lz4", seed),
+    bigs = [(1, 1 << 20, "gzip", seed), (5, 1 << 20, "lz4", seed, True)] if tier == "quick" else [(7, 1 << 20, "zstd", seed, True), (1, 4096, "gzip", seed, False, 9 << 30), (0, 1 << 20, "zstd", seed), (1, 1 << 20, "gzip", seed), (-1, 1 << 20, "lz4", seed),
                                                                 (5000, 131072, "gzip", seed), (123457, 1 << 20, "xz", seed)]
     bp = mp.get_context("fork").Pool(2)
     bres = bp.map_async(bigfile_case, bigs if scale >= 0.2 else [], chunksize=1)
@@ -540,7 +541,7 @@ def main(tier, seed, scale=1.0):
             for c in r[2]:
                 res.add_class(c)
         else:
-            res.violations.append((r[2], vcommon.save_replay(PROP, dict(bigfile=True, delta=r[1], seed=seed, nosparse=("nosparse" in r[2])), r[2])))
+            res.violations.append((r[2], vcommon.save_replay(PROP, dict(bigfile=True, delta=r[1], seed=seed, nosparse=("nosparse" in r[2]), nine_gib=("9 GiB" in r[2])), r[2])))
     bp.close()
     res.rule = ("Hypothesis: random trees (all inode types, hostile names, content recipes around k*B, sparse, duplicates, shared "
                 "tails/leading blocks, hard links, xattrs) x option sets (compressor+extras, block size, -T -e -j -Q -B, --defaults, "
@@ -560,7 +561,10 @@ def replay(path):
     c = vcommon.load_replay(path)["case"]
     if isinstance(c, dict) and c.get("bigfile"):
         res = Result(PROP)
-        r = bigfile_case((c["delta"], c.get("B", 1 << 20), c.get("comp", "lz4" if c.get("nosparse") else "gzip"), c.get("seed", 1), bool(c.get("nosparse"))))
+        a = (c["delta"], c.get("B", 1 << 20), c.get("comp", "lz4" if c.get("nosparse") else "gzip"), c.get("seed", 1), bool(c.get("nosparse")))
+        if c.get("nine_gib"):
+            a = (c["delta"], 4096, "gzip", c.get("seed", 1), False, 9 << 30)
+        r = bigfile_case(a)
         res.evaluations = 1
         if r[0] != "ok":
             res.violations.append((r[2], path))
